@@ -2,6 +2,7 @@ package props
 
 import (
 	"fmt"
+	"math"
 	"strconv"
 	"strings"
 	"time"
@@ -22,7 +23,7 @@ func (c04) ID() string { return "C04" }
 func (c04) Meta(tier string) engine.Meta {
 	return engine.Meta{
 		Level: "model_checking",
-		Rule: "for every documented overload (polymorphic ones instantiated over {num,str,list[num],{a,b},maybe[num]} / map[str,num] / map[num,str]) the full grid of argument tuples from the per-type boundary pools, each as environment data (raw and host map; raw also with every argument read again after the call, {r: f(x0,x1), p0: x0, p1: x1}) and as literals; every comparison operator under !, not, !!, inside if / && / == over numbers, strings, instants and booleans; pairs of numeric / string literals in one program that are equal, within the comparison tolerance or just outside it; every numeric literal text of <=5 characters over {0 1 9 a f x b o e E . + -} that the documented grammar accepts; every string escape; absolute date-time forms over a calendar grid; depth-2 compositions over the small alphabet (quick: every f(…,g(atoms),…) with one nested operand; thorough: all of depth 2). non-trivial = the case reaches a built-in (all but bare literals)",
+		Rule: "for every documented overload (polymorphic ones instantiated over {num,str,list[num],{a,b},maybe[num]} / map[str,num] / map[num,str]) the full grid of argument tuples from the per-type boundary pools, each as environment data (raw and host map; raw also with every argument read again after the call, {r: f(x0,x1), p0: x0, p1: x1}) and as literals; every comparison operator under !, not, !!, inside if / && / == over numbers, strings, instants and booleans; every boolean formula of depth <= 2 over three variables and ! && ||, bare and as condition of if / ?:, under all 8 assignments; 0 and -0 as map keys, lookup keys and set elements, NaN / signed zeros away from the first position of lists; pairs of numeric / string literals in one program that are equal, within the comparison tolerance or just outside it; every numeric literal text of <=5 characters over {0 1 9 a f x b o e E . + -} that the documented grammar accepts; every string escape; absolute date-time forms over a calendar grid; depth-2 compositions over the small alphabet (quick: every f(…,g(atoms),…) with one nested operand; thorough: all of depth 2). non-trivial = the case reaches a built-in (all but bare literals)",
 		Bound: "grids: 24 numbers × 24 numbers per binary numeric overload, 12 strings, 7 lists, 4 maps …; literal texts up to 5 characters; compositions depth 2",
 		Assumptions: []string{
 			"numeric tolerance, truncating %, index truncation, rendering formats are the documented / README definitions re-implemented in mc/ref",
@@ -216,6 +217,52 @@ func (c04) Generate(tier string, yield func(*engine.Case) bool) {
 		}
 	}
 	recLit("")
+	// ---- every boolean formula of depth <= 2 over three variables and ! && ||, bare and in condition
+	// position of if / ?:, under all 8 assignments
+	{
+		A, B, C := gen.VarT("p"), gen.VarT("q"), gen.VarT("r")
+		d0 := []*gen.Term{A, B, C}
+		grow := func(prev []*gen.Term) []*gen.Term {
+			out := append([]*gen.Term(nil), d0...)
+			for _, x := range prev {
+				out = append(out, gen.Prefix("!", gen.GroupT(x)))
+			}
+			for _, x := range prev {
+				for _, y := range prev {
+					out = append(out, gen.Infix("&&", gen.GroupT(x), gen.GroupT(y)), gen.Infix("||", gen.GroupT(x), gen.GroupT(y)))
+				}
+			}
+			return out
+		}
+		d2 := grow(grow(d0))
+		for bits := 0; bits < 8; bits++ {
+			benv := real.EnvSpec{Rep: "raw", Binds: []real.Binding{{Name: "p", V: ref.BoolV(bits&1 != 0)}, {Name: "q", V: ref.BoolV(bits&2 != 0)}, {Name: "r", V: ref.BoolV(bits&4 != 0)}}}
+			for _, f := range d2 {
+				if f.Depth() < 2 && bits > 0 {
+					// (atoms and depth-1 formulas appear again below deeper ones)
+				}
+				emit(progCase("condition-shapes", f, benv, fmt.Sprint(bits)))
+				emit(progCase("condition-shapes", gen.CallT("if", f, gen.NumT(1), gen.NumT(2)), benv, fmt.Sprint(bits)))
+				emit(progCase("condition-shapes", gen.Ternary(f, gen.NumT(1), gen.NumT(2)), benv, fmt.Sprint(bits)))
+			}
+		}
+	}
+	// ---- 0 and -0 are one number: as map keys, in lookups, in set functions
+	{
+		zenv := real.EnvSpec{Rep: "raw", Binds: []real.Binding{{Name: "nz", V: ref.NumV(math.Copysign(0, -1))}, {Name: "z", V: ref.NumV(0)}, {Name: "x", V: ref.NumV(-3)}}}
+		v, num, str := gen.VarT, gen.NumT, gen.StrT
+		m0 := gen.MapT(num(0), str("zero"))
+		mz := gen.MapT(v("nz"), str("zero"))
+		for _, t := range []*gen.Term{
+			gen.CallT("get", m0, v("nz"), str("d")), gen.CallT("get", mz, num(0), str("d")), gen.CallT("get", mz, v("z"), str("d")), gen.CallT("isset", m0, v("nz")), gen.CallT("isset", mz, v("z")),
+			gen.SubT(m0, v("nz")), gen.SubT(mz, num(0)), gen.SubT(m0, gen.Infix("*", v("x"), num(0))), gen.CallT("len", gen.MapT(num(0), str("a"), v("nz"), str("b"))),
+			gen.Infix("==", gen.MapT(num(0), str("a")), gen.MapT(v("nz"), str("a"))), gen.Infix("==", v("z"), v("nz")), gen.CallT("len", gen.CallT("union", gen.ListT(v("z")), gen.ListT(v("nz")))),
+			gen.CallT("len", gen.CallT("diff", gen.ListT(v("z")), gen.ListT(v("nz")))), gen.CallT("string", gen.MapT(v("nz"), num(1))), gen.CallT("string", v("nz")), gen.Infix("/", num(1), gen.CallT("min", gen.ListT(v("z"), v("nz")))),
+			gen.Infix("/", num(1), gen.CallT("max", gen.ListT(v("nz"), v("z")))), gen.CallT("max", gen.ListT(num(3), num(2), gen.Infix("/", gen.Infix("*", v("x"), num(0)), num(0)))),
+		} {
+			emit(progCase("zero-keys", t, zenv, "Z"))
+		}
+	}
 	// ---- every comparison operator under each negation, over numbers, strings, instants and booleans
 	{
 		t1 := ref.TimeV(t0)
@@ -401,7 +448,7 @@ func (c04) Run(c *engine.Case) *engine.Result {
 	d := loadProg(c)
 	h := real.StdHost()
 	p := observe(d.Term, d.Env, h, real.Backends, false)
-	res := &engine.Result{Execs: p.Execs, Outcome: p.outcomeSummary(), NonTrivial: d.Term.Op == "call" || d.Term.Op == "sub" || d.Term.Op == "mem" || c.Family == "numlit" || c.Family == "timelit" || c.Family == "literal-pairs" || c.Family == "grid-reread" || c.Family == "negated-comparisons"}
+	res := &engine.Result{Execs: p.Execs, Outcome: p.outcomeSummary(), NonTrivial: d.Term.Op == "call" || d.Term.Op == "sub" || d.Term.Op == "mem" || c.Family == "numlit" || c.Family == "timelit" || c.Family == "literal-pairs" || c.Family == "grid-reread" || c.Family == "negated-comparisons" || c.Family == "zero-keys" || c.Family == "condition-shapes"}
 	res.Violations = p.judgeValues()
 	if p.RefErr != nil {
 		// the generator only produces well-typed programs: a reference rejection is a harness defect
